@@ -219,7 +219,7 @@ class TypedNode(Node):
         if any_kind:
             kc = self._parent._children
         else:
-            kc = self.parent.get_children(self.kind)
+            kc = self._parent.get_children(self.kind)
         return kc.index(self)
 
     def is_first_sibling(self, *, any_kind=False) -> bool:
